@@ -219,6 +219,19 @@ theorem C03_table_field (eol : List Char) (vt : List Triv) (sep : Option (List T
         | none => []) ++ TableFieldLemmas.linesOf eol vt :=
   TableFieldLemmas.field_comments eol vt sep
 
+/-! ## behind an argument of a multi-line argument list (format_contained_punctuated_multiline) -/
+
+open StyluaModel.CallArg in
+/-- **the comments behind a call argument**: block comments stay behind the argument, the comma's trailing and (moved
+behind it) leading comments follow the comma, then the argument's line comments - every comment once, for lists of any
+length, with or without a comma (last argument) -/
+theorem C03_call_arg (eol : List Char) (aTrail : List Out) (sep : Option (List Triv × List Triv)) :
+    commentsOut (Semi.outs (afterArg eol aTrail sep)) =
+      (commentsOut aTrail).filter CallArgLemmas.isBlockC ++ (match sep with
+        | some (pl, pt) => SemiLemmas.norm eol (commentsIn pt) ++ SemiLemmas.norm eol (commentsIn pl)
+        | none => []) ++ (commentsOut aTrail).filter CallArgLemmas.isLineC :=
+  CallArgLemmas.arg_comments eol aTrail sep
+
 /-! ## non-vacuity -/
 example : commentsOut (load ['\n'] .leading
     [.ws true, .ws true, .comment .line "a  ".toList, .ws true, .comment (.block 1) "b\r\nc".toList, .ws true])
